@@ -28,6 +28,7 @@ CONSTANTS IDs, MaxDg, MaxRep, MaxEnt, Idle, MaxT, MaxFault,
           CheckEveryDgram,      \* policy checked for every datagram (not only while the cache has room)
           LockAcrossDial,       \* TRUE: connLock is held from the closed-check to the attachment of the socket (FALSE: released during the dial)
           FailPathCloses,       \* TRUE: a failed dial goes through CloseWithErr (sets closed); FALSE: calls ExitFunc directly
+          VetRewritten,         \* TRUE: the dial is made with the address the hook returned (mutant: with the original one)
           StampOwnID,           \* reply loop stamps the entry's own ID
           GenHist,              \* record the environment's actions in hist (generator configs)
           SplitExit             \* TRUE: ExitFunc's event and map delete are separate steps (finer, bigger)
@@ -104,7 +105,7 @@ RxInit(fail) ==
   /\ LET e == rx.ent
          to == HookMap[rx.dst]
          target == to
-         allowed == (to # rx.dst) \/ rx.dst \in Allow      \* a rewritten destination is the hook's business
+         allowed == IF VetRewritten THEN to \in Allow ELSE rx.dst \in Allow   \* the dial (and with it the policy) sees the rewritten address
      IN
      IF ents[e].closed /\ GuardClosedInInit
      THEN /\ rx' = [rx EXCEPT !.pc = "idle"]
